@@ -195,7 +195,7 @@ type inResult struct {
 	RFlags           []int    // tx R: success flags of STATICCALL (1) / DELEGATECALL (2) / CALLCODE (4) on 0x66, per iteration
 }
 
-func inDigest(e *evmx.Env, res evmx.Result, prices []string) (string, string) {
+func inDigest(e *evmx.Env, res evmx.Result, prices []string, main common.Address) (string, string) {
 	var sb strings.Builder
 	fmt.Fprintf(&sb, "prices=%v;", prices)
 	for _, l := range e.State.Logs() {
@@ -209,19 +209,19 @@ func inDigest(e *evmx.Env, res evmx.Result, prices []string) (string, string) {
 	sb.Write(j)
 	sc := e.EVM.Tracer().StateChanges()
 	// order-sensitive answers of the query API (C16: "including the order of elements in the returned lists")
-	if k := sc.FindKeyIndices(inMain, "m"); k != nil {
+	if k := sc.FindKeyIndices(main, "m"); k != nil {
 		fmt.Fprintf(&sb, ";kids=%q", k.ChildrenIndices())
 		for _, c := range k.Children() {
 			fmt.Fprintf(&sb, ",%v", c.Slot())
 		}
 	}
-	fmt.Fprintf(&sb, ";ioc=%q", sc.IndicesOfChanges(inMain, "m"))
+	fmt.Fprintf(&sb, ";ioc=%q", sc.IndicesOfChanges(main, "m"))
 	for m := uint64(1); m <= 3; m++ {
-		c, _ := sc.Slot(inMain, uint256.NewInt(20+m), nil, jcType)
+		c, _ := sc.Slot(main, uint256.NewInt(20+m), nil, jcType)
 		fmt.Fprintf(&sb, ";s%d=%s", m, renderChanges(c))
 	}
-	fmt.Fprintf(&sb, ";str0=%s;str1=%s", renderChanges(sc.Variable(inMain, "s")), renderChanges(sc.Variable(inMain, "t")))
-	fmt.Fprintf(&sb, ";bal=%s/%s", renderChanges(sc.Balance(inMain)), renderChanges(sc.Balance(inOther)))
+	fmt.Fprintf(&sb, ";str0=%s;str1=%s", renderChanges(sc.Variable(main, "s")), renderChanges(sc.Variable(main, "t")))
+	fmt.Fprintf(&sb, ";bal=%s/%s", renderChanges(sc.Balance(main)), renderChanges(sc.Balance(inOther)))
 	h := sha256.Sum256([]byte(sb.String()))
 	return hex.EncodeToString(h[:8]), sb.String()
 }
@@ -282,7 +282,7 @@ func (in *inInstance) run() {
 	default:
 		r.Class = "err:" + res.Err.Error()
 	}
-	r.Digest, r.Detail = inDigest(in.env, res, in.tr.prices)
+	r.Digest, r.Detail = inDigest(in.env, res, in.tr.prices, in.main)
 	for _, c := range in.env.Host.Calls {
 		if c.Kind == "write" {
 			r.WriteBy = append(r.WriteBy, c.Addr)
